@@ -254,11 +254,13 @@ CompFmt(fmt) == IF fmt = "lz10" THEN LZ10 ELSE LZ11
 CompOff(fmt) == IF fmt = "lz10" THEN 0 ELSE 4
 \* lz13: byte 1 = 0x13, bytes 2..4 of the wrapper are not constrained by the statement
 Wrapped(fmt, s) == fmt = "lz10" \/ (Len(s) >= 4 /\ s[1] = WrapType)
-\* d = terminal state of the decoder machine run over s from CompOff(fmt)
-CompressOKd(fmt, x, s, d) ==
+\* d = terminal state of the decoder machine run over s from CompOff(fmt).
+\* StreamOKd is what C08 / C09 demand of the stream (well-formed, expands to the input, header
+\* carries the input length); the size bound is C10's and is part of the abstract compressor.
+StreamOKd(fmt, x, s, d) ==
   /\ Wrapped(fmt, s)
   /\ d.st = "done" /\ d.out = x /\ d.declared = Len(x)
-  /\ SizeBound(fmt, Len(x), Len(s))
+CompressOKd(fmt, x, s, d) == StreamOKd(fmt, x, s, d) /\ SizeBound(fmt, Len(x), Len(s))
 CompressOK(fmt, x, s) ==
   Wrapped(fmt, s) /\ CompressOKd(fmt, x, s, Decode(CompFmt(fmt), s, CompOff(fmt)))
 
@@ -323,6 +325,7 @@ Route(entry, s) ==
             IF n < 8 THEN Direct(Cls("err", <<>>, "short"))
             ELSE IF s[5] = LZ11.type THEN Machine(LZ11, 4, FALSE)
             ELSE IF s[5] = LZ10.type THEN Machine(LZ10, 4, TRUE)
+            ELSE IF s[5] \in {StoredType, WrapType} THEN Direct(Cls("open", <<>>, "nested"))
             ELSE Direct(Cls("err", <<>>, "type"))
        ELSE IF s[1] = LZ10.type THEN Machine(LZ10, 0, FALSE)
        ELSE IF s[1] = LZ11.type THEN Machine(LZ11, 0, FALSE)
